@@ -51,8 +51,9 @@ def main(argv=None) -> int:
         for f in sorted(pdir.glob("*.tla")):
             p = subprocess.run(["tlapm", "--toolbox", "0", "0", f.name], cwd=str(pdir), capture_output=True, text=True, timeout=1800)
             out = p.stdout + p.stderr
-            ok = "obligations proved" in out and "failed" not in out.split("[INFO]")[-1]
-            line = [ln for ln in out.splitlines() if "obligations" in ln][-1:] or ["?"]
+            info = [ln for ln in out.splitlines() if ln.startswith("[INFO]") and "proved" in ln]
+            ok = bool(info) and "[ERROR]" not in out
+            line = info[-1:] or [ln for ln in out.splitlines() if "[ERROR]" in ln][-1:] or ["?"]
             print(("ok   " if ok else "FAIL ") + f.name + " — " + line[0].strip())
             bad += (not ok)
         import shutil
